@@ -259,12 +259,13 @@ pub fn run(ctx: &Ctx) -> (Outcome, String, Option<bool>) {
             crate::plan::run_plan(&plan.phase2, &p2, &mut C15::default(), st, shard)
         },
     ));
-    let rule = "Second phase: liquidity lifecycles by construction (a block of deposits, then 3-8 blocks mixing withdrawals, deposits, swaps and coin-splitting transactions, mostly on two pools; 20 fee coins so that many withdrawals can be built), same oracle. First phase: generated histories dominated by pool requests (swap 26%, deposit 18%, withdraw 14% of transactions; up to 8/14 per batch) on built-in, brand-new and emptied pools, amounts from 0 and 1 to the whole holding, pool keys in canonical and 6 alternative spellings (27% of requests), Normal/Faucet/Stake transactions carrying data that parses as a pool key, ~10% mutations (including swapped kinds). Oracle per sealed block, from the real coins and pools before and after sealing: (i) every coin of a non-request transaction is unchanged; (ii) pools (lefts, rights, liqs) and all coins equal RefSTF's exact settlement (single batch price, 995/1000 fee, floor pro-rata, sqrt liquidity, MAX_COINVAL cap) - for alternative spellings either 'ignored' or 'settled as the canonical pool' is accepted; (iii) a pool moves only in a block with a request naming it; reserve product never decreases in swap-only blocks; liquidity tokens handed out <= liquidity minted. Non-trivial = a block with >=2 requests settled on one pool, or a request next to a non-request carrying a pool key; distinct by (pool root, coin root).".to_string();
+    out.absorb(super::hist::run_sampled_heights(ctx, &profile(), ctx.scale(300, 3000), C15::default));
+    let rule = "Also: the first phase's kind of histories on mainnet/testnet (85%) started at a height sampled anywhere below 2 000 000 (TIP-906 barrier crossed honestly first). Second phase: liquidity lifecycles by construction (a block of deposits, then 3-8 blocks mixing withdrawals, deposits, swaps and coin-splitting transactions, mostly on two pools; 20 fee coins so that many withdrawals can be built), same oracle. First phase: generated histories dominated by pool requests (swap 26%, deposit 18%, withdraw 14% of transactions; up to 8/14 per batch) on built-in, brand-new and emptied pools, amounts from 0 and 1 to the whole holding, pool keys in canonical and 6 alternative spellings (27% of requests), Normal/Faucet/Stake transactions carrying data that parses as a pool key, ~10% mutations (including swapped kinds). Oracle per sealed block, from the real coins and pools before and after sealing: (i) every coin of a non-request transaction is unchanged; (ii) pools (lefts, rights, liqs) and all coins equal RefSTF's exact settlement (single batch price, 995/1000 fee, floor pro-rata, sqrt liquidity, MAX_COINVAL cap) - for alternative spellings either 'ignored' or 'settled as the canonical pool' is accepted; (iii) a pool moves only in a block with a request naming it; reserve product never decreases in swap-only blocks; liquidity tokens handed out <= liquidity minted. Non-trivial = a block with >=2 requests settled on one pool, or a request next to a non-request carrying a pool key; distinct by (pool root, coin root).".to_string();
     (out, rule, None)
 }
 
 pub fn replay(case: &serde_json::Value) -> Check {
-    super::hist::replay_two_phase(case, &profile(), &profile2(), C15::default())
+    super::hist::replay_any(case, &profile(), &profile2(), C15::default())
 }
 
 pub fn profile2() -> Profile {
